@@ -161,11 +161,19 @@ func c17(args []string) {
 					// written its audit info before the consumer's command was done, the consumer must see it.
 					sig := "consumer-audit-does-not-name-producer"
 					var prodAudit, consDone int64 = -1, -1
+					// the temp directory of a task is taken from the working directory its command reported
+					tmpOf := func(key string) string {
+						for _, st := range ti.Starts[key] {
+							return filepath.Base(st.Cwd)
+						}
+						return "?"
+					}
+					prodTmp, consTmp := tmpOf(ct.In["in"].Producer.Key), tmpOf(ct.Key)
 					for _, e := range res.Events {
-						if e.Pt == "task.audit_written" && e.Tmp == ct.In["in"].Producer.TempDir {
+						if e.Pt == "task.audit_written" && e.Tmp == prodTmp {
 							prodAudit = e.Seq
 						}
-						if e.Pt == "task.cmd_done" && e.Tmp == ct.TempDir {
+						if e.Pt == "task.cmd_done" && e.Tmp == consTmp {
 							consDone = e.Seq
 						}
 					}
